@@ -33,7 +33,7 @@ VIEW_EXPRS = ['total > 100', 'months >= 6', 'category == "Food" and cv < 0.5', '
               '"a:b" in tags', 'x == "p=q"', 'count(payments) > 1', '1',
               'merchant == "SHELL #12"', "'#' in merchant", 'total > 1 # big ones', 'total > 1 #x', 'months >= 2  #  "quoted" tail']
 NAMES = ['Netflix', 'Large Purchase', 'A-1', 'Café', 'x]y', 'a:b', 'q = 1', 'Uber Eats', 'Z', 'Store #12', '#1', 'A # B', 'Shop #']
-VNAMES = ['Big', 'Every Month', 'A-1', 'Café', 'a:b', 'q = 1', 'Z z', 'Account #2', '#1', 'A # B', 'Top #', 'x#y']
+VNAMES = ['Big', 'big', 'Every Month', 'A-1', 'Café', 'a:b', 'q = 1', 'Z z', 'Account #2', '#1', 'A # B', 'Top #', 'x#y']
 CATS = ['Food', 'Food: Drink', 'A = B', 'Subscriptions', 'Cafés', 'x#y', 'A #1', 'Food # Drink', '#1', 'Aisle #']
 TAGS = ['a, b', 'fun(x,y), z', 'a,,b', '{field.x}, k', 'one', 'a, a, B', 'f(a, g(b, c)), d)e, f', 'a #1, b', '#x, y #', 'k, # , z']
 DESCS = ['All of it', 'a: b', 'x = y', 'Café visits', 'Our #1 budget line (rent)', 'Shell station #12 and the like', '#1', 'tail #',
@@ -80,14 +80,15 @@ def gen_m_items(rnd, nsec=None):
 
 def gen_v_items(rnd, nsec=None):
     items = []
-    for n in rnd.sample(IDENTS + ['1a'], rnd.choice([0, 0, 1, 2])):
+    for n in rnd.sample(IDENTS + ['1a', 'X', 'BIG1'], rnd.choice([0, 0, 1, 2, 3])):
         items.append(('gvar', n, rnd.choice(VIEW_EXPRS)))
-    for _ in range(nsec or rnd.choice([1, 1, 2, 3])):
-        items.append(('hdr', rnd.choice(VNAMES)))
+    nv = nsec or rnd.choice([1, 1, 2, 3])
+    for name in rnd.sample(VNAMES, nv):
+        items.append(('hdr', name))
         body = [('filter', rnd.choice(VIEW_EXPRS))]
         if rnd.random() < 0.5:
             body.append(('desc', rnd.choice(DESCS)))
-        for n in rnd.sample(IDENTS + ['1a'], rnd.choice([0, 0, 1, 2])):
+        for n in rnd.sample(IDENTS + ['1a', 'X', 'BIG1'], rnd.choice([0, 0, 1, 2, 3])):
             body.append(('svar', n, rnd.choice(VIEW_EXPRS)))
         rnd.shuffle(body)
         items += body
@@ -118,7 +119,7 @@ def item_key(it):
     """What makes two property lines 'distinct properties' (may be reordered)."""
     if it[0] == 'prop':
         return it[1]
-    return it[0] if it[0] in ('filter', 'desc') else ('svar', it[1])
+    return it[0] if it[0] in ('filter', 'desc') else ('svar', it[1].lower())
 
 
 # ---- the property's reading of a generated file (independent of tally and of the Coq model) ----
@@ -169,7 +170,7 @@ def spec_v(items, lines_of):
     g, views, cur = {}, [], None
     for i, it in enumerate(items):
         if it[0] == 'gvar':
-            g[it[1]] = it[2]
+            g[it[1].lower()] = it[2]          # names are stored lower-cased
         elif it[0] == 'hdr':
             cur = [it[1].strip(), None, None, {}, lines_of[i]]
             views.append(cur)
@@ -178,7 +179,7 @@ def spec_v(items, lines_of):
         elif it[0] == 'desc':
             cur[2] = it[1]
         else:
-            cur[3][it[1]] = it[2]
+            cur[3][it[1].lower()] = it[2]
     return {'ok': True, 'globals': [[k, v] for k, v in g.items()],
             'views': [[v[0], v[1], v[2], [[k, x] for k, x in v[3].items()], v[4]] for v in views]}
 
@@ -360,6 +361,9 @@ def corruptions(kind, items, lines, rnd):
             elif it[0] == 'hdr':
                 alt('header_unclosed', '[' + it[1], ('reject', L))
                 alt('header_indented', '  ' + lines[i], ('reject', L))
+                earlier = [x[1] for x in items[:i] if x[0] == 'hdr']
+                if earlier:
+                    alt('duplicate_name', rnd.choice(['[%s]', '[ %s ]  ', '[%s]\t']) % rnd.choice(earlier), ('reject', L))
     return out
 
 
